@@ -56,7 +56,7 @@ class Universe:
                 "y<u2": claripy.ULT(y, 2),
             }
             self.E = {"x": x, "y": y, "x+y": x + y, "x-y": x - y}
-            self.X = {"none": (), "x==6": (x == 6,), "y<u2": (claripy.ULT(y, 2),)}
+            self.X = {"none": (), "x==6": (x == 6,), "y<u2": (claripy.ULT(y, 2),), "y>u6": (claripy.UGT(y, 6),)}
             self.B = {"x<u5": claripy.ULT(x, 5), "x==0": x == 0, "x==3": x == 3, "c": c}
         elif name == "bv2x4":
             W = 2
@@ -166,6 +166,8 @@ def canon(obj, _seen=None, _depth=0):
         return tuple(canon(x, _seen, _depth + 1) for x in obj)
     if isinstance(obj, set | frozenset):
         return ("set", tuple(sorted((canon(x, _seen, _depth + 1) for x in obj), key=repr)))
+    if isinstance(obj, weakref.WeakSet):
+        return ("weakset", tuple(sorted((canon(x, _seen, _depth + 1) for x in list(obj)), key=repr)))
     if isinstance(obj, weakref.WeakValueDictionary | weakref.WeakKeyDictionary):
         return ("weak", tuple(sorted((canon(k, _seen, _depth + 1) for k in list(obj.keys())), key=repr)))
     if isinstance(obj, dict):
@@ -219,7 +221,7 @@ def default_events(uni: Universe, level: str = "full"):
         for k in adds:
             ev.append(("add", k))
         ev += [("sat", "none"), ("sat", "x==6")]
-        ev += [("eval", "x", 1, "none"), ("eval", "x", 2, "none"), ("eval", "x", 9, "none"), ("eval", "x", 9, "y<u2"), ("eval", "x+y", 9, "none")]
+        ev += [("eval", "x", 1, "none"), ("eval", "x", 2, "none"), ("eval", "x", 9, "none"), ("eval", "x", 9, "y<u2"), ("eval", "x", 9, "y>u6"), ("eval", "x+y", 9, "none")]
         ev += [("beval", "x,y", 9, "none"), ("beval", "x,y", 2, "y<u2")]
         for op in ("min", "max"):
             ev += [(op, "x", "u", "none"), (op, "x", "s", "none"), (op, "x", "u", "y<u2"), (op, "x", "u", "x==6"), (op, "x", "s", "y<u2")]
@@ -400,7 +402,7 @@ def apply_event(run: Run, ev, check=True):
         elif kind == "simplify":
             s.simplify()
             ans = ("simplified",)
-            if check and hasattr(s, "constraints") and not run.approx:
+            if check and hasattr(s, "constraints") and not run.approx and "Composite" not in run.cls:
                 try:
                     tabs = [uni.den(c) for c in s.constraints]
                     after = tuple(i for i in range(uni.N) if all(t[i] for t in tabs))
